@@ -424,14 +424,37 @@ def r4_loaders(ctx):
 # ------------------------------------------------------------------------------------------------ R5
 def r5_aliases(ctx):
     repo = ctx.repo
-    f = repo.func('gnpy.tools.json_io', '_equipment_from_json')
-    loops = [n for n in walk_no_nested(f.node) if isinstance(n, ast.For) and 'other_name' in ast.unparse(n.iter)]
-    for lp in loops:
+    f0 = repo.func('gnpy.tools.json_io', '_equipment_from_json')
+    # the alias loops: in the loader itself, or in a generator of the module that yields (alias, per-alias entry) pairs to it
+    found = [(f0, n) for n in walk_no_nested(f0.node) if isinstance(n, ast.For) and 'other_name' in ast.unparse(n.iter)]
+    shared = 0
+    for g in repo.module('gnpy.tools.json_io').functions.values():
+        if g is f0 or not any(isinstance(x, ast.Yield) for x in ast.walk(g.node)):
+            continue
+        uses = [lp for lp in walk_no_nested(f0.node) if isinstance(lp, ast.For) and isinstance(lp.iter, ast.Call) and
+                getattr(lp.iter.func, 'id', '') == g.name]
+        gl = [n for n in walk_no_nested(g.node) if isinstance(n, ast.For) and 'other_name' in ast.unparse(n.iter)]
+        if uses and gl:
+            # every consumer stores the object built from the yielded entry under the yielded name
+            okc = all(isinstance(lp.target, ast.Tuple) and len(lp.target.elts) == 2 and any(
+                isinstance(s_, ast.Assign) and isinstance(s_.targets[0], ast.Subscript) and
+                ast.unparse(s_.targets[0].slice) == ast.unparse(lp.target.elts[0]) and isinstance(s_.value, ast.Call) and
+                any(k.arg is None and ast.unparse(k.value) == ast.unparse(lp.target.elts[1]) for k in s_.value.keywords)
+                for s_ in lp.body) for lp in uses)
+            ctx.check('R5.aliases', f'{site(f0)} consumers of {g.name}', okc and len(uses) >= 2, key(f0, f'alias-consumers|{g.name}'),
+                      'an equipment built for a name is not stored under that name from the entry prepared for it')
+            found += [(g, n) for n in gl]
+            shared = len(uses) - 1
+    for f, lp in found:
         var = lp.target.id if isinstance(lp.target, ast.Name) else None
         ctor = None
         for n in walk_no_nested(lp):
             if isinstance(n, ast.Call) and any(k.arg is None for k in n.keywords):
                 ctor = n
+            if isinstance(n, ast.Yield) and isinstance(n.value, ast.Tuple) and len(n.value.elts) == 2 and \
+                    isinstance(n.value.elts[0], ast.Name) and n.value.elts[0].id == var:
+                # handed to the consumers as (alias, entry): the entry plays the part of the constructor's ** argument
+                ctor = ast.Call(func=ast.Name(id='yield', ctx=ast.Load()), args=[], keywords=[ast.keyword(arg=None, value=n.value.elts[1])])
         if var is None:
             ctx.cannot('R5.aliases', site(f, lp), 'alias loop with an unforeseen target')
             continue
@@ -473,7 +496,7 @@ def r5_aliases(ctx):
                   '(each name must report itself)', tv_wrong or '')
         ctx.check('R5.aliases', f'{st} list removed', pop_ok, key(f, f'alias-pop|{kk}'),
                   'the alias list is not removed from the per-alias entry')
-    ctx.need('R5.aliases', 6, 'Edfa and Transceiver loops x 3')
+    ctx.need('R5.aliases', 4, 'Edfa and Transceiver loops x 3 (or one shared generator x 3 + its consumers)')
 
 
 def r2b_accumulators(ctx):
